@@ -4,6 +4,15 @@
 K = {"name": "TestKnown", "enum": True}
 
 CHECKS = {
+    "C03": {
+        "level": "exploration",
+        "tests": [
+            {"name": "TestC03Determinism", "checks": [1500, 8000], "shards": [2, 16], "floor": 0.85},
+            {"name": "TestC03Dates", "enum": True},
+            K,
+        ],
+        "assumptions": ["a nondeterministic construct shows a difference within 8 in-process renders x 3 context materialisations (+ 2 fresh processes for every 5th case)"],
+    },
     "C06": {
         "level": "exploration",
         "tests": [
